@@ -587,3 +587,160 @@ Lemma second_lowest_in : forall l x, is_second_lowest_abs l x -> In x l.
 Proof.
   intros l x (s & P & _ & N). eapply Permutation_in. symmetry. exact P. eapply nth_error_In. exact N.
 Qed.
+
+(* ------------------------------------------------------------------ the other three kernels *)
+Lemma Forall2_map_in : forall {A B C} (R : B -> C -> Prop) (f : A -> B) (g : A -> C) l,
+  (forall a, In a l -> R (f a) (g a)) -> Forall2 R (map f l) (map g l).
+Proof.
+  induction l as [|a l IH]; intro H; cbn [map]. constructor.
+  constructor. apply H. left. reflexivity. apply IH. intros b Hb. apply H. right. exact Hb.
+Qed.
+
+Lemma dirs16_full : Forall (fun h => Z.abs (fst h) = 2 \/ Z.abs (snd h) = 2) dirs16.
+Proof. unfold dirs16. repeat (apply Forall_cons; [cbn [fst snd]; lia|]). apply Forall_nil. Qed.
+Lemma dirs8_full : Forall (fun h => Z.abs (fst h) = 1 \/ Z.abs (snd h) = 1) dirs8.
+Proof. unfold dirs8. repeat (apply Forall_cons; [cbn [fst snd]; lia|]). apply Forall_nil. Qed.
+Lemma dirs16_rc_eq : dirs16_rc = map (fun h => (snd h, fst h)) dirs16.
+Proof. reflexivity. Qed.
+Lemma dirs8_rc_eq : dirs8_rc = map (fun h => (snd h, fst h)) dirs8.
+Proof. reflexivity. Qed.
+
+Lemma sum_nonzero_ex : forall l, fold_right Z.add 0 l <> 0 -> exists x, In x l /\ x <> 0.
+Proof.
+  induction l as [|a l IH]; cbn [fold_right]; intro H. congruence.
+  destruct (Z.eq_dec a 0) as [->|Ha].
+  - destruct IH as (x & Hx & Hn). lia. exists x. split. right. exact Hx. exact Hn.
+  - exists a. split. left. reflexivity. exact Ha.
+Qed.
+Lemma sum_nonneg : forall l, (forall x, In x l -> 0 <= x) -> 0 <= fold_right Z.add 0 l.
+Proof.
+  induction l as [|a l IH]; cbn [fold_right]; intro H. lia.
+  assert (0 <= a) by (apply H; left; reflexivity).
+  assert (0 <= fold_right Z.add 0 l) by (apply IH; intros x Hx; apply H; right; exact Hx). lia.
+Qed.
+Lemma sum_ex_nonzero : forall l x, (forall y, In y l -> 0 <= y) -> In x l -> x <> 0 -> fold_right Z.add 0 l <> 0.
+Proof.
+  induction l as [|a l IH]; intros x Hp Hx Hn. destruct Hx.
+  cbn [fold_right].
+  assert (0 <= a) by (apply Hp; left; reflexivity).
+  assert (0 <= fold_right Z.add 0 l) by (apply sum_nonneg; intros y Hy; apply Hp; right; exact Hy).
+  destruct Hx as [->|Hx]. lia.
+  assert (fold_right Z.add 0 l <> 0) by (apply (IH x); [intros y Hy; apply Hp; right; exact Hy | exact Hx | exact Hn]).
+  lia.
+Qed.
+
+Lemma land_occ_zero : forall v, Z.land v MSK_OCCLUSION = 0 <-> Z.testbit v 8 = false.
+Proof.
+  intro v. rewrite <- has_occ. unfold has. destruct (Z.eqb_spec (Z.land v MSK_OCCLUSION) 0); cbn; split; congruence.
+Qed.
+
+Section Px2.
+  Variables nr nc : Z.
+  Variable disp : Z -> Z -> option Q.
+  Variable mask : Z -> Z -> Z.
+
+  Lemma mc_neighbors_contribute : forall r c, 0 <= r < nr -> 0 <= c < nc ->
+    Forall2 (fun d o => contributes nr nc disp mask (halfstep d r c) o) dirs16_rc
+            (mc_neighbors true nr nc disp mask r c).
+  Proof.
+    intros r c Hr Hc. rewrite dirs16_rc_eq. unfold mc_neighbors. apply Forall2_map_in.
+    intros h Hh. apply mc_neighbor_contributes; try assumption.
+    pose proof dirs16_full as F. rewrite Forall_forall in F. apply F. exact Hh.
+  Qed.
+
+  Lemma fvn_contribute : forall r c, 0 <= r < nr -> 0 <= c < nc ->
+    Forall2 (fun d o => contributes nr nc disp mask (straight d r c) o) dirs8_rc
+            (find_valid_neighbors nr nc disp mask c r).
+  Proof.
+    intros r c Hr Hc. rewrite dirs8_rc_eq. unfold find_valid_neighbors. apply Forall2_map_in.
+    intros h Hh. apply fvn_contributes; try assumption.
+    pose proof dirs8_full as F. rewrite Forall_forall in F. apply F. exact Hh.
+  Qed.
+
+  (* ---- mc-cnn mismatch *)
+  Lemma mis_mc_meets : forall r c, 0 <= r < nr -> 0 <= c < nc ->
+    mc_mismatch_px nr nc disp mask r c (fst (mis_mc_pixel true nr nc disp mask r c))
+                   (snd (mis_mc_pixel true nr nc disp mask r c)).
+  Proof.
+    intros r c Hr Hc. unfold mis_mc_pixel, mc_mismatch_px. rewrite has_mis.
+    destruct (Z.testbit (mask r c) 9) eqn:E9.
+    2:{ left. split. reflexivity. split; reflexivity. }
+    right. split. reflexivity. exists (mc_neighbors true nr nc disp mask r c).
+    split. apply mc_neighbors_contribute; assumption.
+    cbn [andb]. destruct (all_nan (mc_neighbors true nr nc disp mask r c)) eqn:Ea.
+    - right. split. apply all_nan_finite. exact Ea. split; reflexivity.
+    - assert (Hne : finite (mc_neighbors true nr nc disp mask r c) <> []).
+      { intro X. apply all_nan_finite in X. congruence. }
+      left. split. exact Hne. destruct (nanmedian_is_median _ Hne) as (m & Em & Hm).
+      cbn [fst snd]. split. exists m. split; assumption. apply swap_mis. exact E9.
+  Qed.
+
+  (* ---- sgm: the 3x3 occlusion test *)
+  Lemma occ_neighbor_spec : forall r c, 0 <= r < nr -> 0 <= c < nc ->
+    (occ_neighbor nr nc mask r c = true <-> touches_occlusion nr nc mask r c).
+  Proof.
+    intros r c Hr Hc. unfold occ_neighbor, touches_occlusion.
+    set (l := flat_map _ _).
+    assert (Hl : forall x, In x l <-> exists r' c', (Z.max 0 (r - 1) <= r' < Z.min (nr - 1) (r + 1) + 1) /\
+                  (Z.max 0 (c - 1) <= c' < Z.min (nc - 1) (c + 1) + 1) /\ x = Z.land (mask r' c') MSK_OCCLUSION).
+    { intro x. unfold l. rewrite in_flat_map. split.
+      - intros (r' & Hr' & Hx). apply in_map_iff in Hx. destruct Hx as (c' & Hx & Hc').
+        apply In_zrange in Hr'. apply In_zrange in Hc'. exists r', c'. split. lia. split. lia. congruence.
+      - intros (r' & c' & Hr' & Hc' & Hx). exists r'. split. apply In_zrange. lia.
+        apply in_map_iff. exists c'. split. congruence. apply In_zrange. lia. }
+    assert (Hpos : forall y, In y l -> 0 <= y).
+    { intros y Hy. apply Hl in Hy. destruct Hy as (r' & c' & _ & _ & ->). apply Z.land_nonneg. right.
+      unfold MSK_OCCLUSION. lia. }
+    rewrite negb_true_iff, Z.eqb_neq. split.
+    - intro H. apply sum_nonzero_ex in H. destruct H as (x & Hx & Hn). apply Hl in Hx.
+      destruct Hx as (r' & c' & Hr' & Hc' & ->). exists r', c'.
+      split. unfold Spec.Interp.inside. cbn [fst snd]. lia. split. lia. split. lia.
+      destruct (Z.testbit (mask r' c') 8) eqn:E; [reflexivity|]. apply land_occ_zero in E. congruence.
+    - intros (r' & c' & Hin & Hr' & Hc' & Hb). unfold Spec.Interp.inside in Hin. cbn [fst snd] in Hin.
+      apply (sum_ex_nonzero l (Z.land (mask r' c') MSK_OCCLUSION) Hpos).
+      + apply Hl. exists r', c'. split. lia. split. lia. reflexivity.
+      + intro X. apply land_occ_zero in X. congruence.
+  Qed.
+
+  (* ---- sgm mismatch (the pixel does not carry both bits 8 and 9) *)
+  Lemma mis_sgm_meets : forall r c, 0 <= r < nr -> 0 <= c < nc ->
+    Z.testbit (mask r c) 8 && Z.testbit (mask r c) 9 = false ->
+    sgm_mismatch_px nr nc disp mask r c (fst (mis_sgm_pixel true nr nc disp mask r c))
+                    (snd (mis_sgm_pixel true nr nc disp mask r c)).
+  Proof.
+    intros r c Hr Hc Hnb. unfold mis_sgm_pixel, sgm_mismatch_px. rewrite has_mis.
+    destruct (Z.testbit (mask r c) 9) eqn:E9.
+    2:{ left. split. reflexivity. split; reflexivity. }
+    rewrite andb_true_r in Hnb. right.
+    destruct (occ_neighbor nr nc mask r c) eqn:En.
+    - left. split. reflexivity. split. apply occ_neighbor_spec; assumption.
+      split. reflexivity. apply swap_mis_occ; assumption.
+    - right. split. reflexivity. split.
+      { intro X. apply occ_neighbor_spec in X; try assumption. congruence. }
+      exists (find_valid_neighbors nr nc disp mask c r).
+      split. apply fvn_contribute; assumption.
+      cbn [andb]. destruct (all_nan (find_valid_neighbors nr nc disp mask c r)) eqn:Ea.
+      + right. split. apply all_nan_finite. exact Ea. split; reflexivity.
+      + assert (Hne : finite (find_valid_neighbors nr nc disp mask c r) <> []).
+        { intro X. apply all_nan_finite in X. congruence. }
+        left. split. exact Hne. destruct (nanmedian_is_median _ Hne) as (m & Em & Hm).
+        cbn [fst snd]. split. exists m. split; assumption. apply swap_mis. exact E9.
+  Qed.
+
+  (* ---- sgm occlusion *)
+  Lemma occ_sgm_meets : forall r c, 0 <= r < nr -> 0 <= c < nc ->
+    sgm_occlusion_px nr nc disp mask r c (fst (occ_sgm_pixel true nr nc disp mask r c))
+                     (snd (occ_sgm_pixel true nr nc disp mask r c)).
+  Proof.
+    intros r c Hr Hc. unfold occ_sgm_pixel, sgm_occlusion_px. rewrite has_occ.
+    destruct (Z.testbit (mask r c) 8) eqn:E8.
+    2:{ left. split. reflexivity. split; reflexivity. }
+    right. split. reflexivity. exists (find_valid_neighbors nr nc disp mask c r).
+    split. apply fvn_contribute; assumption.
+    cbn [andb]. pose proof (second_lowest_spec (find_valid_neighbors nr nc disp mask c r)) as S.
+    destruct (second_lowest_abs (find_valid_neighbors nr nc disp mask c r)) as [x|].
+    - destruct S as [S1 S2]. left. split. exact S1. cbn [fst snd]. split.
+      exists x. split. reflexivity. exact S2. apply swap_occ'. exact E8.
+    - right. split. exact S. split; reflexivity.
+  Qed.
+End Px2.
